@@ -187,12 +187,13 @@ def summarise_shapes(res, shape_info):
     return out
 
 
-def base_input(rng, tmpdir, n_traces=None, multi_file_ok=True, **kw):
-    """Random traces written as OTel JSON; returns pieces for a config."""
+def base_input(rng, tmpdir, n_traces=None, overlap=None, **kw):
+    """Random traces (span dicts) + per job info."""
     n_traces = n_traces or rng.randint(3, 7)
+    rnd_overlap = rng.choice([0.0, 0.3, 0.8])
     traces, info = G.gen_traces(
         rng, n_traces, n_templates=rng.randint(1, 3),
-        overlap=rng.choice([0.0, 0.3, 0.8]),
+        overlap=rnd_overlap if overlap is None else overlap,
         alt_name_prob=rng.choice([0.0, 0.0, 0.3]), **kw)
     return traces, info
 
@@ -208,14 +209,22 @@ def shuffled_spans(rng, traces, interleave=True):
 # scenario kinds
 # --------------------------------------------------------------------------
 def sc_ingest_seq(rng, tmp, out):
-    traces, info = base_input(rng, tmp)
+    use_default_flag = rng.random() < 0.35
+    traces, info = base_input(
+        rng, tmp, overlap=0.8 if use_default_flag else None)
     spans = shuffled_spans(rng, traces, rng.random() < 0.7)
     n_files = rng.choice([1, 1, 2, 3])
     chunks = G.split_chunks(rng, spans, n_files)
     json_cfg, meta = G.write_source(rng, tmp, chunks)
+    seq = G.gen_sequencer(rng)
+    if use_default_flag:
+        seq.pop("async_flag", None)     # rely on the project's default
+        if rng.random() < 0.5:
+            seq = None                  # ... or on the default sequencer
     cfg = G.ingest_config(json_cfg, batch_size=rng.choice([1, 2, 3, 7, 100]),
-                          sequencer=G.gen_sequencer(rng))
+                          sequencer=seq)
     out["meta"] = meta
+    out["sequencer"] = seq
     out["run"] = run_otel_to_pv(cfg, keep_order=meta["n_files"] == 1,
                                 ingest_data=True)
 
